@@ -22,6 +22,7 @@ import (
 	"runtime"
 	"runtime/debug"
 	"sort"
+	"strconv"
 	"strings"
 	"sync"
 	"syscall"
@@ -144,6 +145,7 @@ func runTask(g *gen, regs []regType, t task, trace *os.File) *result {
 			}
 			seenEnc[string(enc)] = true
 			res.Distinct++
+			res.EncH = append(res.EncH, h64(enc))
 			if len(res.Samples) < 2 && len(enc) > 0 && len(enc) < 40 {
 				res.Samples = append(res.Samples, map[string]any{"type": reg.name, "value": m.d, "encoding": hx(enc)})
 			}
@@ -230,7 +232,7 @@ func spawn(tracePath string) (*worker, error) {
 		return nil, err
 	}
 	sc := bufio.NewScanner(outp)
-	sc.Buffer(make([]byte, 1<<24), 1<<24)
+	sc.Buffer(make([]byte, 1<<20), 1<<28)
 	return &worker{cmd: cmd, stdin: bufio.NewWriter(in), stdout: sc, stderr: tb}, nil
 }
 
@@ -350,133 +352,195 @@ func main() {
 		wg.Wait()
 	}
 
-	// 1. plan: number of values / weight per type
-	only := os.Getenv("C20_ONLY") // debugging aid: restrict to types whose name contains this (run is then not exhaustive)
-	var plan []*job
-	for i := range regs {
-		if only != "" && !strings.Contains(regs[i].name, only) {
-			continue
-		}
-		plan = append(plan, &job{t: task{Op: "plan", Type: i, NP: 1, Thorough: thorough}})
-	}
-	runAll(plan, 10*time.Minute)
-
-	// 2. value+mutation tasks (split heavy types) and short-byte-string tasks; heaviest first
-	var jobs []*job
-	weights := map[*job]int64{}
-	target := int64(3_000_000)
-	if thorough {
-		target = 30_000_000
-	}
-	for _, pj := range plan {
-		i := pj.t.Type
-		if pj.res == nil {
-			if pj.bad != "" {
-				jobs = append(jobs, pj) // report below
-			}
-			continue
-		}
-		np := int(pj.res.Weight/target) + 1
-		if np > 256 {
-			np = 256
-		}
-		for p := 0; p < np; p++ {
-			j := &job{t: task{Op: "values", Type: i, P: p, NP: np, Thorough: thorough}}
-			weights[j] = pj.res.Weight / int64(np)
-			jobs = append(jobs, j)
-		}
-		bj := &job{t: task{Op: "bytes", Type: i, NP: 1, Thorough: thorough}}
-		weights[bj] = target // interleaved with the value tasks so that a capped run has covered both kinds
-		jobs = append(jobs, bj)
-	}
-	sort.SliceStable(jobs, func(a, b int) bool { return weights[jobs[a]] > weights[jobs[b]] })
-	runAll(jobs, 10*time.Minute)
-
-	// 3. aggregate deterministically (task order)
-	sort.SliceStable(jobs, func(a, b int) bool {
-		x, y := jobs[a].t, jobs[b].t
-		if x.Type != y.Type {
-			return x.Type < y.Type
-		}
-		if x.Op != y.Op {
-			return x.Op < y.Op
-		}
-		return x.P < y.P
-	})
 	type vkey struct{ class, sig string }
 	type vagg struct {
 		min   viol
 		types map[string]bool
 	}
-	best := map[vkey]*vagg{}
+	only := os.Getenv("C20_ONLY") // debugging aid: restrict to types whose name contains this (run is then not exhaustive)
+	planLost := 0
+	// explore runs one enumeration phase and returns its tasks in deterministic (type, op, part) order.
+	explore := func(th bool) []*job {
+		// 1. plan: number of values / weight per type
+		var plan []*job
+		for i := range regs {
+			if only != "" && !strings.Contains(regs[i].name, only) {
+				continue
+			}
+			plan = append(plan, &job{t: task{Op: "plan", Type: i, NP: 1, Thorough: th}})
+		}
+		runAll(plan, 10*time.Minute)
+
+		// 2. value+mutation tasks (split heavy types) and short-byte-string tasks; heaviest first
+		var jobs []*job
+		weights := map[*job]int64{}
+		target := int64(3_000_000)
+		if th {
+			target = 30_000_000
+		}
+		for _, pj := range plan {
+			i := pj.t.Type
+			if pj.res == nil {
+				if pj.bad != "" {
+					jobs = append(jobs, pj) // report below
+				} else {
+					planLost++ // budget expired before this type was planned
+				}
+				continue
+			}
+			np := int(pj.res.Weight/target) + 1
+			if np > 256 {
+				np = 256
+			}
+			for p := 0; p < np; p++ {
+				j := &job{t: task{Op: "values", Type: i, P: p, NP: np, Thorough: th}}
+				weights[j] = pj.res.Weight / int64(np)
+				jobs = append(jobs, j)
+			}
+			bj := &job{t: task{Op: "bytes", Type: i, NP: 1, Thorough: th}}
+			weights[bj] = target // interleaved with the value tasks so that a capped run has covered both kinds
+			jobs = append(jobs, bj)
+		}
+		sort.SliceStable(jobs, func(a, b int) bool { return weights[jobs[a]] > weights[jobs[b]] })
+		runAll(jobs, 10*time.Minute)
+		sort.SliceStable(jobs, func(a, b int) bool {
+			x, y := jobs[a].t, jobs[b].t
+			if x.Type != y.Type {
+				return x.Type < y.Type
+			}
+			if x.Op != y.Op {
+				return x.Op < y.Op
+			}
+			return x.P < y.P
+		})
+		return jobs
+	}
+
+	// Phases.  "core" is the quick-tier enumeration and runs first in BOTH tiers; "extended" (thorough tier only) is the
+	// wider enumeration.  The minimal witness that is part of a violation key is taken from the core phase whenever the
+	// (class, cause) pair shows up there, so quick and thorough (even budget-capped) report identical keys for it; the
+	// extended phase contributes keys only for (class, cause) pairs the core phase does not see.
+	type phase struct {
+		name     string
+		thorough bool
+		jobs     []*job
+		best     map[vkey]*vagg
+		done     int
+		skipped  int
+		distinct int64
+		evals    int64
+	}
+	phases := []*phase{{name: "core"}}
+	if thorough {
+		phases = append(phases, &phase{name: "extended", thorough: true})
+	}
+	for _, ph := range phases {
+		ph.jobs = explore(ph.thorough)
+	}
+
+	// 3. aggregate deterministically (phase order, then task order)
 	notes := map[string][]string{}
-	var totalValues, totalDistinct, totalStrings, totalDecodes int64
+	var totalValues, totalStrings, totalDecodes int64
 	typesDone := map[int]bool{}
 	native, done, skipped := 0, 0, 0
 	var structDifs []string
 	perPkg := map[string]int{}
-	for _, j := range jobs {
-		reg := regs[j.t.Type]
-		if j.bad != "" {
-			k := j.culprit
-			if k == "" {
-				k = reg.name + "|" + j.t.Op
+	for _, ph := range phases {
+		ph.best = map[vkey]*vagg{}
+		for _, j := range ph.jobs {
+			reg := regs[j.t.Type]
+			if j.bad != "" {
+				k := j.culprit
+				if k == "" {
+					k = reg.name + "|" + j.t.Op
+				}
+				r.Violation("worker-died|"+k, map[string]any{"task": j.t, "phase": ph.name, "info": j.bad})
 			}
-			r.Violation("worker-died|"+k, map[string]any{"task": j.t, "info": j.bad})
-		}
-		if j.res == nil {
-			skipped++
-			continue
-		}
-		done++
-		res := j.res
-		r.EvalN(res.Evals)
-		totalDecodes += res.Decodes
-		totalStrings += res.Strings
-		if res.Op == "values" {
-			totalValues += res.Evals - res.Strings
-			for d := 0; d < res.Distinct; d++ {
-				r.Distinct(fmt.Sprintf("%s|%d|%d", reg.name, j.t.P, d))
-			}
-			totalDistinct += int64(res.Distinct)
-		}
-		for k, n := range res.Outcomes {
-			if strings.HasPrefix(k, "VIOLATION:") {
+			if j.res == nil {
+				ph.skipped++
 				continue
 			}
-			r.OutcomeN(k, n)
-		}
-		for _, s := range res.Samples {
-			r.Sample(s)
-		}
-		for k, v := range res.Notes {
-			if len(notes[k]) < 12 {
-				notes[k] = append(notes[k], v...)
+			ph.done++
+			res := j.res
+			r.EvalN(res.Evals)
+			ph.evals += res.Evals
+			totalDecodes += res.Decodes
+			totalStrings += res.Strings
+			if res.Op == "values" {
+				totalValues += res.Evals - res.Strings
+				// distinct non-trivial cases = distinct (type, canonical valid encoding) pairs, exact across tasks and phases
+				for _, h := range res.EncH {
+					if r.Distinct(reg.name + "|" + strconv.FormatUint(h, 16)) {
+						ph.distinct++
+					}
+				}
+			}
+			for k, n := range res.Outcomes {
+				if strings.HasPrefix(k, "VIOLATION:") {
+					continue
+				}
+				r.OutcomeN(k, n)
+			}
+			for _, s := range res.Samples {
+				r.Sample(s)
+			}
+			for k, v := range res.Notes {
+				if len(notes[k]) < 12 {
+					notes[k] = append(notes[k], v...)
+				}
+			}
+			structDifs = append(structDifs, res.StructDif...)
+			for i := range res.Viols {
+				v := res.Viols[i]
+				key := vkey{v.Class, v.Sig}
+				a := ph.best[key]
+				if a == nil {
+					a = &vagg{min: v, types: map[string]bool{}}
+					ph.best[key] = a
+				}
+				a.types[v.Type] = true
+				if v.less(&a.min) {
+					a.min = v
+				}
+			}
+			if !typesDone[j.t.Type] {
+				typesDone[j.t.Type] = true
+				perPkg[reg.pkg]++
+				if reg.native {
+					native++
+				}
 			}
 		}
-		structDifs = append(structDifs, res.StructDif...)
-		for _, v := range res.Viols {
-			key := vkey{v.Class, v.Sig}
-			a := best[key]
-			if a == nil {
-				a = &vagg{min: v, types: map[string]bool{}}
-				best[key] = a
+		done += ph.done
+		skipped += ph.skipped
+	}
+	skipped += planLost
+
+	// 4. violation keys: <class>|<normalised cause>|min=<type>:<hex input>, one per (class, cause); min is the smallest
+	// witness (shortest input, then type name, then input) seen by the first phase in which the pair shows up.
+	type finding struct {
+		k     vkey
+		phase string
+		min   viol
+		types map[string]bool
+		other map[string]viol // smallest witness per phase (informational)
+	}
+	found := map[vkey]*finding{}
+	for _, ph := range phases {
+		for k, a := range ph.best {
+			f := found[k]
+			if f == nil {
+				f = &finding{k: k, phase: ph.name, min: a.min, types: map[string]bool{}, other: map[string]viol{}}
+				found[k] = f
 			}
-			a.types[v.Type] = true
-			if b := a.min; v.Len < b.Len || (v.Len == b.Len && (v.Input < b.Input || (v.Input == b.Input && v.Type < b.Type))) {
-				a.min = v
-			}
-		}
-		if !typesDone[j.t.Type] {
-			typesDone[j.t.Type] = true
-			perPkg[reg.pkg]++
-			if reg.native {
-				native++
+			f.other[ph.name] = a.min
+			for t := range a.types {
+				f.types[t] = true
 			}
 		}
 	}
 	var vkeys []vkey
-	for k := range best {
+	for k := range found {
 		vkeys = append(vkeys, k)
 	}
 	sort.Slice(vkeys, func(a, b int) bool {
@@ -485,50 +549,49 @@ func main() {
 		}
 		return vkeys[a].sig < vkeys[b].sig
 	})
-	{
-		var all []map[string]any
-		for _, k := range vkeys {
-			a := best[k]
-			var ts []string
-			for t := range a.types {
-				ts = append(ts, t)
-			}
-			sort.Strings(ts)
-			all = append(all, map[string]any{"class": k.class, "sig": k.sig, "min": a.min, "types": ts})
-		}
-		b, _ := json.MarshalIndent(map[string]any{"violations": all, "notes": notes}, "", " ")
-		os.WriteFile(filepath.Join(scratch, "violations-"+r.Tier+".json"), b, 0o644)
-	}
+	var allKeys []string
+	var dump []map[string]any
 	for _, k := range vkeys {
-		a := best[k]
+		f := found[k]
 		var ts []string
-		for t := range a.types {
+		for t := range f.types {
 			ts = append(ts, t)
 		}
 		sort.Strings(ts)
+		key := fmt.Sprintf("%s|%s|min=%s:%s", k.class, k.sig, f.min.Type, f.min.Input)
+		allKeys = append(allKeys, key)
+		dump = append(dump, map[string]any{"key": key, "class": k.class, "sig": k.sig, "phase": f.phase, "min": f.min, "min_per_phase": f.other, "types": ts})
 		if len(ts) > 40 {
-			ts = append(ts[:40], "…")
+			ts = append(ts[:40:40], "…")
 		}
-		// one key per defect signature: class | normalised cause.  The minimal instance (smallest input, then type
-		// name) is in the detail, not in the key, so that a budget-capped run (which may see a different minimal
-		// instance) still produces the same key.
-		r.Violation(fmt.Sprintf("%s|%s", k.class, k.sig),
-			map[string]any{"minimal": a.min, "n_affected_types": len(a.types), "affected_types": ts, "replay": "C20_DEBUG=" + a.min.Type + ":<hex> /verif/.work/bin/c20"})
+		r.Violation(key, map[string]any{"minimal": f.min, "found_in_phase": f.phase, "min_per_phase": f.other, "n_affected_types": len(f.types), "affected_types": ts,
+			"replay": "C20_DEBUG=" + f.min.Type + ":" + f.min.Input + " /verif/.work/bin/c20"})
+	}
+	{
+		b, _ := json.MarshalIndent(map[string]any{"violations": dump, "notes": notes}, "", " ")
+		os.WriteFile(filepath.Join(scratch, "violations-"+r.Tier+".json"), b, 0o644)
 	}
 	if len(structDifs) > 8 {
 		structDifs = structDifs[:8]
 	}
 	exhaustive := skipped == 0 && !r.Capped() && only == ""
+	var phaseInfo []map[string]any
+	for _, ph := range phases {
+		phaseInfo = append(phaseInfo, map[string]any{"name": ph.name, "tasks": ph.done, "tasks_skipped_budget": ph.skipped, "evaluations": ph.evals,
+			"new_distinct_valid_encodings": ph.distinct, "violation_causes": len(ph.best)})
+	}
 	depth, k := tierParams(thorough)
 	r.Assumptions = []string{
 		"values compared with amino.DeepEqual semantics (equal canonical reflect encoding); nil vs empty slice, unexported fields and time zones are therefore not distinguished",
 		"value space is the bounded menu described in rule, not all values; byte strings beyond length 3 only as single-byte mutations/truncations of valid encodings",
 		"types without native genproto2 methods get the reflect-only round-trip, JSON and no-panic checks",
 	}
-	r.Finish(fmt.Sprintf("per registered type: all values with <=%d deviating fields (menu depth %d) x {encoder parity, size, 2 decoders round-trip, JSON round-trip}; all byte strings of length<=2 (65793), %d^3 length-3 strings, every truncation, 5 single-byte substitutions per position, every rotation and the self-concatenation of every distinct valid encoding x {accept/reject parity, value parity, no panic, re-encode stability}; distinct = distinct (type, canonical encoding) pairs", k, depth, map[bool]int{false: len(menu3), true: len(menu3) + len(menu3x)}[thorough]),
+	r.Finish(fmt.Sprintf("per registered type: all values with <=%d deviating fields (menu depth %d) x {encoder parity, size, 2 decoders round-trip, JSON round-trip}; all byte strings of length<=2 (65793), %d^3 length-3 strings, every truncation, 5 single-byte substitutions per position, every rotation and the self-concatenation of every distinct valid encoding x {accept/reject parity, value parity, no panic, re-encode stability}; distinct = distinct (type, canonical valid encoding) pairs%s", k, depth, map[bool]int{false: len(menu3), true: len(menu3) + len(menu3x)}[thorough],
+		map[bool]string{false: "", true: "; preceded by the complete quick-tier enumeration (core phase, k=2, depth 2, 24^3), which fixes the minimal witnesses used in violation keys"}[thorough]),
 		exhaustive, map[string]any{
 			"types": len(typesDone), "types_native_genproto2": native, "types_per_package": perPkg,
-			"values_checked": totalValues, "distinct_valid_encodings": totalDistinct, "byte_strings_checked": totalStrings,
+			"values_checked": totalValues, "distinct_valid_encodings": r.NDistinct(), "byte_strings_checked": totalStrings,
+			"phases": phaseInfo, "violation_keys": allKeys,
 			"decoder_calls": totalDecodes, "tasks": done, "tasks_skipped_budget": skipped, "workers": nw, "worker_mem_cap_bytes": workerMemCap,
 			"structural_differences_between_decoders_sample": structDifs,
 		})
